@@ -4,7 +4,7 @@ CfgSmall  == {[T |-> 4, K |-> 2, limit |-> 3, m |-> 1, maxProcs |-> 2, maxFaults
 CfgLimits == {[T |-> 3, K |-> 2, limit |-> l, m |-> 1, maxProcs |-> 1, maxFaults |-> 0] : l \in 1..4}
 CfgM2     == {[T |-> 5, K |-> 2, limit |-> 2, m |-> 2, maxProcs |-> 1, maxFaults |-> 1]}
 CfgNoDonor == {[T |-> 4, K |-> 2, limit |-> 2, m |-> 3, maxProcs |-> 1, maxFaults |-> 0]}   \* nobody holds 2m: RepopFails
-CfgK3     == {[T |-> 4, K |-> 3, limit |-> 2, m |-> 1, maxProcs |-> 3, maxFaults |-> 1]}
+CfgK3     == {[T |-> 4, K |-> 3, limit |-> 2, m |-> 1, maxProcs |-> 2, maxFaults |-> 0]}
 \* configurations whose behaviours are replayed into the real loop as label scripts (harness/drv_scripts.py)
 CfgScriptA == {[T |-> 4, K |-> 2, limit |-> 4, m |-> 1, maxProcs |-> 1, maxFaults |-> 0]}
 CfgScriptB == {[T |-> 5, K |-> 3, limit |-> 3, m |-> 1, maxProcs |-> 1, maxFaults |-> 0]}
